@@ -483,5 +483,50 @@ theorem codeLt_strict {T : NodeType} (hP : PortsOK T) (hdotS : ∀ q ∈ T.scal.
     · rw [codeLt_nsp hP hdotS vc vd hn, codeLt_nsp hP hdotS vd vc (fun h => hn ⟨h.1.symm, h.1 ▸ h.2⟩)]
       exact strLt_total (L_ne hP vc vd hn hne)
 
+/-! ### node ids: `Node-k` is injective in k, so the bounded search of `firstFree` cannot exhaust its fuel -/
+
+theorem natDigits_inj {a b : Nat} (h : natDigits a = natDigits b) : a = b := by
+  have ha := (natDigits_spec a).1
+  rw [h, (natDigits_spec b).1] at ha
+  exact (Option.some.inj ha).symm
+
+theorem nodeIdOf_inj {a b : Nat} (h : nodeIdOf a = nodeIdOf b) : a = b := by
+  unfold nodeIdOf at h
+  exact natDigits_inj (String.ofList_injective ((String.append_right_inj _).mp h))
+
+theorem firstFree_none {ids : List Id} {fuel k : Nat} (h : firstFree ids fuel k = none) :
+    ∀ j, j < fuel → nodeIdOf (k + j) ∈ ids := by
+  induction fuel generalizing k with
+  | zero => intro j hj; omega
+  | succ f ih =>
+    unfold firstFree at h
+    split at h
+    · rename_i hk
+      intro j hj
+      cases j with
+      | zero => simpa using hk
+      | succ j =>
+        have := ih h j (by omega)
+        rwa [show k + 1 + j = k + (j + 1) by omega] at this
+    · cases h
+
+/-- pigeonhole: `fuel` different candidate ids cannot all be among fewer than `fuel` used ids -/
+theorem firstFree_sufficient_aux {ids : List Id} {fuel : Nat} (k : Nat) (h : ids.length < fuel) :
+    ∃ id, firstFree ids fuel k = some id := by
+  cases hf : firstFree ids fuel k with
+  | some id => exact ⟨id, rfl⟩
+  | none =>
+    have hall := firstFree_none hf
+    have hnd : ((List.range fuel).map (fun j => nodeIdOf (k + j))).Nodup := by
+      apply List.pairwise_map.mpr
+      exact (List.pairwise_lt_range (n := fuel)).imp (fun {a b} hab e => by have := nodeIdOf_inj e; omega)
+    have hsub : ((List.range fuel).map (fun j => nodeIdOf (k + j))) ⊆ ids := by
+      intro x hx
+      obtain ⟨j, hj, rfl⟩ := List.mem_map.mp hx
+      exact hall j (List.mem_range.mp hj)
+    have := hnd.length_le_of_subset hsub
+    simp at this
+    omega
+
 end GraphIO
 end PolyVerif
